@@ -376,9 +376,125 @@ pub fn json_docs() -> Vec<String> {
     out
 }
 
+
+// ------------------------------------------------------------------------------ units outside the database
+
+/// Numbers whose unit is not a database entry: the library's own DEFAULT_UNIT (what
+/// `get_unit_or_default` returns for an unknown name) and units a caller builds from the public
+/// fields of `Unit` (no ids, empty / blank / non-ASCII / quote-carrying ids, no dimensions,
+/// zero / NaN scale) — bare and inside a list, a dict and a grid.
+fn exotic_unit_values() -> Vec<Value> {
+    use libhaystack::units::{get_unit_or_default, Unit};
+    use libhaystack::val::{Dict, Grid, Number};
+    let mut units: Vec<&'static Unit> = vec![get_unit_or_default("no-such-unit"), get_unit_or_default("")];
+    for ids in [vec![], vec![""], vec![" "], vec!["é"], vec!["a b", "\""], vec!["x", ""], vec!["kW", "kW"], vec!["\n"], vec!["_"]] {
+        for (scale, dims) in [(1.0, false), (0.0, true), (f64::NAN, false)] {
+            let u = Unit { quantity: if dims { Some("q".into()) } else { None }, ids: ids.iter().map(|s| s.to_string()).collect(), dimensions: if dims { Some(Default::default()) } else { None }, scale, offset: 0.0 };
+            units.push(Box::leak(Box::new(u)));
+        }
+    }
+    let mut out = vec![];
+    for u in units {
+        for x in [42.0, -0.0, f64::NAN, f64::INFINITY, 1e21] {
+            let n = Value::Number(Number { value: x, unit: Some(u) });
+            out.push(n.clone());
+            out.push(Value::make_list(vec![n.clone(), Value::make_str("s")]));
+            let mut d = Dict::new();
+            d.insert("dis".into(), n.clone());
+            d.insert("curVal".into(), n.clone());
+            out.push(Value::make_dict(d.clone()));
+            out.push(Value::make_grid(Grid::make_from_dicts(vec![d])));
+        }
+    }
+    out
+}
+
+// ------------------------------------------------------------------------------ writer faults
+
+/// a writer driven by a script: per call it accepts everything, at most `limit` bytes, fails with
+/// an I/O error, reports Interrupted, or accepts nothing (Ok(0))
+struct ScriptWriter {
+    out: Vec<u8>,
+    calls: usize,
+    limit: usize,
+    fail_at: Option<usize>,
+    zero_at: Option<usize>,
+    interrupt_every: usize,
+    interrupted_last: bool,
+}
+impl std::io::Write for ScriptWriter {
+    fn write(&mut self, buf: &[u8]) -> std::io::Result<usize> {
+        self.calls += 1;
+        if self.calls > 5_000_000 {
+            panic!("writer called more than 5 000 000 times: the encoder does not make progress");
+        }
+        if self.fail_at == Some(self.calls) {
+            return Err(std::io::Error::new(std::io::ErrorKind::Other, "disk full"));
+        }
+        if let Some(z) = self.zero_at {
+            if self.calls >= z {
+                return Ok(0);
+            }
+        }
+        if self.interrupt_every > 0 && self.calls % self.interrupt_every == 0 && !self.interrupted_last {
+            self.interrupted_last = true;
+            return Err(std::io::Error::new(std::io::ErrorKind::Interrupted, "EINTR"));
+        }
+        self.interrupted_last = false;
+        let n = buf.len().min(self.limit);
+        self.out.extend_from_slice(&buf[..n]);
+        Ok(n)
+    }
+    fn flush(&mut self) -> std::io::Result<()> {
+        Ok(())
+    }
+}
+
+/// Encoding into a caller's writer: a writer that takes few bytes per call or reports Interrupted
+/// still receives the whole text; a writer that fails or accepts nothing makes the encoder return
+/// an error (no panic, no endless loop) having written a prefix of the text.
+fn writer_case(v: &V) -> Verdict {
+    use libhaystack::encoding::zinc::encode::ToZinc;
+    let lv = to_lib(v);
+    for fmt in ["zinc", "hayson"] {
+        let run = |w: &mut ScriptWriter| -> Result<Result<(), String>, String> {
+            guarded(|| if fmt == "zinc" { lv.to_zinc(w).map_err(|e| e.to_string()) } else { serde_json::to_writer(&mut *w, &lv).map_err(|e| e.to_string()) })
+        };
+        let mk = |limit: usize, fail_at: Option<usize>, zero_at: Option<usize>, interrupt_every: usize| ScriptWriter { out: vec![], calls: 0, limit, fail_at, zero_at, interrupt_every, interrupted_last: false };
+        let mut plain = mk(usize::MAX, None, None, 0);
+        let text = match run(&mut plain).map_err(|p| (format!("writer-panic:{fmt}"), p))? {
+            Ok(()) => plain.out.clone(),
+            Err(_) => continue, // this value has no text in this format (an error is allowed)
+        };
+        let ncalls = plain.calls;
+        for (limit, every) in [(1usize, 0usize), (2, 0), (3, 0), (7, 0), (usize::MAX, 2), (1, 3), (5, 2)] {
+            let mut w = mk(limit, None, None, every);
+            match run(&mut w).map_err(|p| (format!("writer-panic:{fmt}"), format!("{p} (writer takes {limit} bytes per call, Interrupted every {every})")))? {
+                Ok(()) if w.out == text => {}
+                Ok(()) => return Err((format!("writer-short-write-loses-text:{fmt}"), format!("a writer taking {limit} bytes per call (Interrupted every {every}) received {:?}, the text is {:?}", String::from_utf8_lossy(&w.out), String::from_utf8_lossy(&text)))),
+                Err(e) => return Err((format!("writer-short-write-refused:{fmt}"), format!("a writer taking {limit} bytes per call (Interrupted every {every}): {e}"))),
+            }
+        }
+        for k in 1..=ncalls.min(40) {
+            for zero in [false, true] {
+                let mut w = if zero { mk(usize::MAX, None, Some(k), 0) } else { mk(usize::MAX, Some(k), None, 0) };
+                match run(&mut w).map_err(|p| (format!("writer-panic:{fmt}"), format!("{p} (writer {} at call {k})", if zero { "accepts nothing" } else { "fails" })))? {
+                    Err(_) => {
+                        if !text.starts_with(&w.out) {
+                            return Err((format!("writer-failure-garbage:{fmt}"), format!("after the failure at call {k} the writer holds {:?}, not a prefix of {:?}", String::from_utf8_lossy(&w.out), String::from_utf8_lossy(&text))));
+                        }
+                    }
+                    Ok(()) => return Err((format!("writer-failure-swallowed:{fmt}"), format!("the writer {} at call {k} of {ncalls}, the encoder reports success", if zero { "accepted nothing" } else { "failed" }))),
+                }
+            }
+        }
+    }
+    Ok(())
+}
+
 pub fn run(tier: Tier) -> i32 {
     let mut run = Run::new("C10", tier, "exploration");
-    run.rule = "U_all: every String field over 27 strings (empty, non-ASCII first, multi-char uppercase, controls, 300 chars) in every position; NaN/INF with units; date/time/timestamp extremes; ill-shaped grids; every display tag with every kind; nesting chains of every depth 1..64; plus the image of the Zinc decoder on every string <= 4/5 over the 27-byte token alphabet and of the Hayson decoder on ~10^4 kind-tagged documents; each through to_zinc_string, typed ToZinc, serde_json to_string/to_vec/to_value, Display, Debug, Display and Debug under ~125 format specifications (width 0-300, fill, the three alignments, precision 0-40, sign, alternate, zero padding; Value, Date, Time, DateTime, Ref, Symbol, Unit, HaystackKind), Dict::dis, dict_to_dis; non-trivial = distinct value".into();
+    run.rule = "U_all: every String field over 27 strings (empty, non-ASCII first, multi-char uppercase, controls, 300 chars) in every position; NaN/INF with units; numbers whose unit is not a database entry (the library's DEFAULT_UNIT, caller-built units with no / empty / blank / non-ASCII ids, no dimensions, zero or NaN scale); date/time/timestamp extremes; ill-shaped grids; every display tag with every kind; nesting chains of every depth 1..64; plus the image of the Zinc decoder on every string <= 4/5 over the 27-byte token alphabet and of the Hayson decoder on ~10^4 kind-tagged documents; each through to_zinc_string, typed ToZinc, serde_json to_string/to_vec/to_value, Display, Debug, Display and Debug under ~125 format specifications (width 0-300, fill, the three alignments, precision 0-40, sign, alternate, zero padding; Value, Date, Time, DateTime, Ref, Symbol, Unit, HaystackKind), Dict::dis, dict_to_dis; plus encoding into a caller's writer (ToZinc::to_zinc, serde_json::to_writer) under writer scripts — 1 / 2 / 3 / 7 bytes per call, Interrupted every 2nd / 3rd call, failure or 'accepts nothing' at each of the first 40 calls — for a kind-complete pool: short writes and Interrupted lose nothing, a failure is reported as an error with a prefix of the text written, no panic, no endless loop; non-trivial = distinct value".into();
     run.assume("timestamps stay two days inside chrono's representable range: at the very limits chrono itself panics computing the local time (trusted-base limitation, not libhaystack code)");
     run.assume("Display is driven through write! (an Err from Display is 'an error', which the statement allows; `to_string()` would turn it into a panic of the caller)");
     crate::engine::quiet_panics();
@@ -454,6 +570,37 @@ pub fn run(tier: Tier) -> i32 {
         }
     });
     run.absorb(l);
+    // numbers whose unit is not a database entry
+    {
+        let ev = exotic_unit_values();
+        let l = par_for_stack(ev.len(), stack, |i, local| {
+            local.eval();
+            local.count("exotic-unit-values");
+            if let Err((e, p)) = encode_all(&ev[i]) {
+                local.fail(&format!("panic:{e}:number-with-a-unit-outside-the-database"), json!({"exotic_unit": i}), format!("{p} (value {:?})", format!("{:?}", ev[i]).chars().take(300).collect::<String>()));
+            }
+        });
+        run.absorb(l);
+    }
+    // writer faults: encoding into a caller's writer (short writes, Interrupted, failure or
+    // "accepts nothing" at every one of the first 40 calls)
+    {
+        let mut wv: Vec<V> = pool.clone();
+        wv.extend(u::pool_containers2().into_iter().step_by(tier.pick(7, 1)));
+        wv.extend([u::small_grid(), u::meta_grid(), V::str(&"é😀\"\n".repeat(50)), V::List((0..40).map(|i| V::num(i as f64)).collect())]);
+        wv.extend(base.iter().step_by(tier.pick(9, 1)).cloned());
+        let l = par_for_stack(wv.len(), stack, |i, local| {
+            local.eval();
+            local.count("writer-cases");
+            if let Err((e, p)) = writer_case(&wv[i]) {
+                let min = shrink(&wv[i], false, &|c| writer_case(c).is_err());
+                let (e2, p2) = writer_case(&min).err().unwrap_or((e, p));
+                local.fail(&format!("{e2}:{}", shape_sig(&min)), json!({"value": to_json(&min), "writer": true}), p2);
+            }
+        });
+        run.absorb(l);
+        run.require(run.counter("writer-cases") > 50, "writer-fault cases missing");
+    }
     let docs = json_docs();
     let l = par_for_stack(docs.len(), stack, |i, local| {
         local.eval();
@@ -473,6 +620,16 @@ pub fn run(tier: Tier) -> i32 {
 }
 
 pub fn replay(case: &J) -> Verdict {
+    if let Some(i) = case["exotic_unit"].as_u64() {
+        let ev = exotic_unit_values();
+        return match ev.get(i as usize).map(encode_all) {
+            Some(Err((e, p))) => Err((format!("panic:{e}:number-with-a-unit-outside-the-database"), p)),
+            _ => Ok(()),
+        };
+    }
     let v = from_json(&case["value"]);
+    if case["writer"] == true {
+        return writer_case(&v).map_err(|(s, d)| (format!("{s}:{}", shape_sig(&v)), d));
+    }
     check_v(&v).map_err(|(s, d)| (format!("{s}:{}", shape_sig(&v)), d))
 }
